@@ -116,6 +116,7 @@ type gcase struct {
 	pElems, sElems           []string
 	lTarget, lOrigin         string
 	lElems                   []string
+	lead                     int // 0: single path; 1: after a path without origin; 2: after a path with origin o2
 }
 
 func mkp(origin string, elems []string) *pb.Path {
@@ -137,7 +138,9 @@ func specContainGNMI() seqmc.Spec {
 						for _, lt := range []string{"t1", "t2"} {
 							for _, lo := range []string{"", "o", "o2"} {
 								for _, le := range [][]string{{"a"}, {"a", "b"}, {"b"}, {"a", "a"}} {
-									cases = append(cases, gcase{tg, po, so, pe, se, lt, lo, le})
+									for lead := 0; lead <= 2; lead++ {
+										cases = append(cases, gcase{tg, po, so, pe, se, lt, lo, le, lead})
+									}
 								}
 							}
 						}
@@ -158,8 +161,22 @@ func specContainGNMI() seqmc.Spec {
 		}
 		prefix := mkp(g.pOrigin, g.pElems)
 		prefix.Target = g.target
-		sl := &pb.SubscriptionList{Prefix: prefix, Subscription: []*pb.Subscription{{Path: mkp(g.sOrigin, g.sElems)}}}
-		full, err := path.CompletePath(sl.Prefix, sl.Subscription[0].Path)
+		sl := &pb.SubscriptionList{Prefix: prefix}
+		// the path under test comes after another path of the same list
+		// (nothing registered for one path may leak into the next)
+		switch g.lead {
+		case 1:
+			sl.Subscription = append(sl.Subscription, &pb.Subscription{Path: mkp("", []string{"z"})})
+		case 2:
+			sl.Subscription = append(sl.Subscription, &pb.Subscription{Path: mkp("o2", []string{"z"})})
+		}
+		sl.Subscription = append(sl.Subscription, &pb.Subscription{Path: mkp(g.sOrigin, g.sElems)})
+		for _, sub := range sl.Subscription[:len(sl.Subscription)-1] {
+			if _, err := path.CompletePath(sl.Prefix, sub.Path); err != nil {
+				return desc, false, nil // the leading path itself is illegal with this prefix
+			}
+		}
+		full, err := path.CompletePath(sl.Prefix, sl.Subscription[len(sl.Subscription)-1].Path)
 		if err != nil {
 			return desc, false, nil
 		}
